@@ -12,6 +12,7 @@ import (
 
 	"github.com/cloudwego/hertz/pkg/app"
 	"github.com/cloudwego/hertz/pkg/common/config"
+	"github.com/cloudwego/hertz/pkg/network/standard"
 	"github.com/cloudwego/hertz/pkg/route"
 
 	"github.com/cloudwego/hertz/pkg/app/server"
@@ -69,6 +70,9 @@ func trunc(s string, n int) string {
 }
 
 func work(w *mon.W) {
+	// poison-on-free sanitiser (hook H3): a buffer block that is recycled while a request
+	// still refers to it shows up as 0xDD bytes in the handler views
+	standard.VerifPoisonEnabled = true
 	st := &state{}
 	opt := rig.Options(func(o *config.Options) { o.StreamRequestBody = true })
 	handler := func(st *state) app.HandlerFunc {
